@@ -35,9 +35,11 @@ func RunInit(args []string, opts GlobalOptions) error {
 	if err := os.MkdirAll(target, 0755); err != nil {
 		return err
 	}
-	plansPath := filepath.Join(target, plansFileName)
+	// Use the same log file every other command uses, so that init on a
+	// store holding only the legacy events.jsonl does not shadow it.
+	eventsPath := getEventsPath(target)
 	lockPath := filepath.Join(target, "lock")
-	if err := ensureFileExists(plansPath, 0644); err != nil {
+	if err := ensureFileExists(eventsPath, 0644); err != nil {
 		return err
 	}
 	if err := ensureFileExists(lockPath, 0644); err != nil {
